@@ -84,6 +84,25 @@ def q_trace_cli(p):
     return _d([buf.getvalue(), _unp(t)])
 
 
+def q_findings_each(p):
+    """the safety check with a caller-supplied analyzer: every registered analysis on its own"""
+    from fickling.analysis import Analysis, Analyzer, check_safety
+    out = []
+    for cls in list(dict.fromkeys(type(a) for a in Analysis.ALL)):
+        r = check_safety(p, analyzer=Analyzer([cls()]))
+        out.append([cls.__name__, r.severity.name, sorted({(str(f.analysis_name), f.severity.name, str(f.message)) for f in r.results})])
+    return _d(out)
+
+
+def q_severity_ml(p):
+    """... and the ML recipe (allow-list analysis first)"""
+    import fickling.analysis as an
+    import fickling.ml as ml
+    recipe = [c() for c in (getattr(ml, "MLAllowlist", None), getattr(an, "UnsafeImportsML", None), getattr(an, "BadCalls", None)) if c]
+    r = an.check_safety(p, analyzer=an.Analyzer(recipe))
+    return _d([r.severity.name, sorted({(str(f.analysis_name), f.severity.name, str(f.message)) for f in r.results})])
+
+
 def q_dumps(p):
     return _d(p.dumps().hex())
 
@@ -91,7 +110,7 @@ def q_dumps(p):
 QUERIES = {"source": q_source, "ast": q_ast, "severity": q_severity, "findings": q_findings,
            "imports": q_imports, "calls": q_calls, "flags": q_flags, "unused": q_unused,
            "nonstd": q_nonstd, "unsafe": q_unsafe, "trace": q_trace, "dumps": q_dumps,
-           "source_cli": q_source_cli, "trace_cli": q_trace_cli}
+           "source_cli": q_source_cli, "trace_cli": q_trace_cli, "findings_each": q_findings_each, "severity_ml": q_severity_ml}
 
 
 def ask(p, q):
